@@ -103,7 +103,7 @@ def step (st : St) (args : List String) : St × String :=
       if pr.wf then
         match marshal pr with
         | some bs => (st, "ok " ++ Hex.encodeTok bs ++ "\tok " ++ Hex.encodeTok (Spec.KsCodec.marshal pr))
-        | none => (st, "err-shape")
+        | none => (st, "err-shape\tok " ++ Hex.encodeTok (Spec.KsCodec.marshal pr))
       else bad
     | _, _, _, _, _ => bad
   | ["unmarshal", h] =>
@@ -140,7 +140,7 @@ def step (st : St) (args : List String) : St × String :=
     | some pub, some priv =>
       match serializeHDAccountKey pub priv with
       | some bs => (st, "ok " ++ Hex.encodeTok bs ++ "\tok " ++ Hex.encodeTok (Spec.KsCodec.hdRecord pub priv))
-      | none => (st, "err-shape")
+      | none => (st, "err-shape\tok " ++ Hex.encodeTok (Spec.KsCodec.hdRecord pub priv))
     | _, _ => bad
   | ["de-hd", h] =>
     match Hex.decode h with
